@@ -282,11 +282,14 @@ func vH_C18_iter() {
 	closed := false
 	exhausted := false
 	mutateAt := -1
+	nextCalls := 0
 	if vParam("itermut") == 1 {
 		mutateAt = vChoose("mutate-after-call", -1, calls-1)
 	}
 	for k := 0; k < calls; k++ {
-		if k == mutateAt+0 && mutateAt >= 0 {
+		if k == mutateAt && mutateAt >= 0 && nextCalls > 0 {
+			// (only after the first Next: the producer pins its version when
+			// the first Next arrives, not when the iterator is created)
 			// the consumer mutates while the iterator is open: the version the
 			// producer pinned is superseded
 			vTrace("Set(during-iteration)")
@@ -300,6 +303,7 @@ func vH_C18_iter() {
 		}
 		vTrace("Next")
 		ok := it.Next()
+		nextCalls++
 		if closed || exhausted {
 			vAssert("next-after-end-is-false", !ok)
 			continue
